@@ -376,3 +376,238 @@ Proof.
   - apply (filter_map_rev_rows (fun k => group_rows false (set_desc q false) (members (set_desc q false) db k))).
   - intros k. rewrite group_rows_desc. reflexivity.
 Qed.
+
+(* ------------------------------------------------------------------------------------------------ *)
+(* 8. operator-level fill of one group: independent of the chunking                                    *)
+Lemma fill_group_chunks_invariant_lemma : forall i first last m aggs chunks,
+  fill_group_chunks i first last m aggs chunks = fill_group_chunks i first last m aggs [concat chunks].
+Proof.
+  intros. unfold fill_group_chunks. rewrite !run_chunks_concat. cbn [concat]. now rewrite app_nil_r.
+Qed.
+
+(* 9. split path of a descending query: the repaired sub-chunk windows cover every window of the group *)
+Local Open Scope nat_scope.
+Lemma subchunks_repaired_cover : forall size cs k,
+  0 < cs -> k < size -> covered in_subchunk_repaired size cs k = true.
+Proof.
+  intros size cs k Hcs Hk. unfold covered. apply existsb_exists. exists (k / cs). split.
+  - apply in_seq. split; [lia|]. cbn [plus]. unfold subchunks.
+    assert (k / cs <= (size - 1) / cs) by (apply Nat.div_le_mono; lia).
+    replace (size + cs - 1) with ((size - 1) + 1 * cs) by lia.
+    rewrite Nat.div_add by lia. lia.
+  - unfold in_subchunk_repaired. apply andb_true_iff. split.
+    + apply Nat.leb_le. rewrite Nat.mul_comm. apply Nat.mul_div_le. lia.
+    + apply Nat.ltb_lt. replace (k / cs + 1) with (S (k / cs)) by lia.
+      rewrite Nat.mul_comm. apply Nat.mul_succ_div_gt. lia.
+Qed.
+
+(* ------------------------------------------------------------------------------------------------ *)
+(* 10. the row order is a total order: sorted permutations are unique, hence merge_k = sort_rows        *)
+Local Open Scope Z_scope.
+Lemma cell_compare_eq : forall a b, cell_compare a b = Eq -> a = b.
+Proof.
+  intros [|x|n d] [|y|n' d']; cbn; try discriminate; try reflexivity.
+  - intros H. apply Z.compare_eq in H. now subst.
+  - destruct (n ?= n') eqn:E; try discriminate. intros H.
+    apply Z.compare_eq in E. apply Z.compare_eq in H. now subst.
+Qed.
+
+Lemma cells_compare_eq : forall a b, cells_compare a b = Eq -> a = b.
+Proof.
+  induction a as [|x a IH]; intros [|y b]; cbn; try discriminate; [reflexivity|].
+  destruct (cell_compare x y) eqn:E; try discriminate. intros H.
+  apply cell_compare_eq in E. apply IH in H. now subst.
+Qed.
+
+Lemma arow_compare_eq : forall a b, arow_compare a b = Eq -> a = b.
+Proof.
+  intros [t c] [t' c']. unfold arow_compare. cbn [fst snd].
+  destruct (t ?= t') eqn:E; try discriminate. intros H.
+  apply Z.compare_eq in E. apply cells_compare_eq in H. now subst.
+Qed.
+
+Lemma cell_compare_refl : forall a, cell_compare a a = Eq.
+Proof. intros [|x|n d]; cbn; rewrite ?Z.compare_refl; reflexivity. Qed.
+
+(* transitivity of the comparisons, outcome by outcome *)
+Lemma Zcmp_trans : forall a b c x, (a ?= b) = x -> (b ?= c) = x -> (a ?= c) = x.
+Proof.
+  intros a b c [] H1 H2.
+  - apply Z.compare_eq_iff in H1. apply Z.compare_eq_iff in H2. apply Z.compare_eq_iff. congruence.
+  - apply Z.compare_lt_iff in H1. apply Z.compare_lt_iff in H2. apply Z.compare_lt_iff.
+    eapply Z.lt_trans; eassumption.
+  - apply Z.compare_gt_iff in H1. apply Z.compare_gt_iff in H2. apply Z.compare_gt_iff.
+    eapply Z.lt_trans; eassumption.
+Qed.
+
+(* one lexicographic step over Z keys *)
+Lemma lex_step_trans : forall (a b c : Z) (r1 r2 r3 x : comparison),
+  (r1 = x -> r2 = x -> r3 = x) ->
+  match a ?= b with Eq => r1 | o => o end = x ->
+  match b ?= c with Eq => r2 | o => o end = x ->
+  match a ?= c with Eq => r3 | o => o end = x.
+Proof.
+  intros a b c r1 r2 r3 x IH H1 H2.
+  destruct (a ?= b) eqn:E1; destruct (b ?= c) eqn:E2.
+  - apply Z.compare_eq_iff in E1. apply Z.compare_eq_iff in E2. rewrite E1, E2, Z.compare_refl. auto.
+  - apply Z.compare_eq_iff in E1. rewrite E1, E2. exact H2.
+  - apply Z.compare_eq_iff in E1. rewrite E1, E2. exact H2.
+  - apply Z.compare_eq_iff in E2. rewrite <- E2, E1. exact H1.
+  - rewrite (Zcmp_trans a b c Lt E1 E2). exact H1.
+  - congruence.
+  - apply Z.compare_eq_iff in E2. rewrite <- E2, E1. exact H1.
+  - congruence.
+  - rewrite (Zcmp_trans a b c Gt E1 E2). exact H1.
+Qed.
+
+Lemma cell_compare_trans : forall a b c x,
+  cell_compare a b = x -> cell_compare b c = x -> cell_compare a c = x.
+Proof.
+  intros [|p|n d] [|q|n' d'] [|r|n'' d''] x; cbn; intros H1 H2; subst; try congruence; try reflexivity.
+  - eapply Zcmp_trans; [reflexivity|]. now symmetry.
+  - eapply (lex_step_trans n n' n'' (d ?= d') (d' ?= d'') (d ?= d'')); [| reflexivity | now symmetry].
+    intros A B. eapply Zcmp_trans; eassumption.
+Qed.
+
+Lemma cell_compare_eq_l : forall a b c, cell_compare a b = Eq -> cell_compare a c = cell_compare b c.
+Proof. intros a b c H. apply cell_compare_eq in H. now subst. Qed.
+
+Lemma cells_compare_trans : forall a b c x,
+  cells_compare a b = x -> cells_compare b c = x -> cells_compare a c = x.
+Proof.
+  induction a as [|p a IH]; intros [|q b] [|r c] x; cbn; intros H1 H2; subst; try congruence; try reflexivity.
+  destruct (cell_compare p q) eqn:E1; destruct (cell_compare q r) eqn:E2.
+  - rewrite (cell_compare_trans p q r Eq E1 E2). eapply IH; [reflexivity | now symmetry].
+  - apply cell_compare_eq in E1. subst. rewrite E2. now symmetry.
+  - apply cell_compare_eq in E1. subst. rewrite E2. now symmetry.
+  - apply cell_compare_eq in E2. subst. rewrite E1. reflexivity.
+  - rewrite (cell_compare_trans p q r Lt E1 E2). reflexivity.
+  - congruence.
+  - apply cell_compare_eq in E2. subst. rewrite E1. reflexivity.
+  - congruence.
+  - rewrite (cell_compare_trans p q r Gt E1 E2). reflexivity.
+Qed.
+
+Lemma arow_compare_trans : forall a b c x,
+  arow_compare a b = x -> arow_compare b c = x -> arow_compare a c = x.
+Proof.
+  intros [t1 c1] [t2 c2] [t3 c3] x. unfold arow_compare. cbn [fst snd]. intros H1 H2.
+  eapply (lex_step_trans t1 t2 t3); [| exact H1 | exact H2].
+  intros A B. eapply cells_compare_trans; eassumption.
+Qed.
+
+Lemma arow_leb_trans : forall a b c, row_le a b -> row_le b c -> row_le a c.
+Proof.
+  unfold row_le, arow_leb. intros a b c H1 H2.
+  destruct (arow_compare a b) eqn:E1; try discriminate; destruct (arow_compare b c) eqn:E2; try discriminate.
+  - now rewrite (arow_compare_trans a b c Eq E1 E2).
+  - apply arow_compare_eq in E1. subst. now rewrite E2.
+  - apply arow_compare_eq in E2. subst. now rewrite E1.
+  - now rewrite (arow_compare_trans a b c Lt E1 E2).
+Qed.
+
+Lemma arow_leb_antisym : forall a b, row_le a b -> row_le b a -> a = b.
+Proof.
+  unfold row_le, arow_leb. intros a b H1 H2. rewrite (arow_compare_antisym a b) in H2.
+  destruct (arow_compare a b) eqn:E; cbn in *; try discriminate.
+  now apply arow_compare_eq.
+Qed.
+
+Lemma row_le_transitive : Relations_1.Transitive row_le.
+Proof. intros a b c. apply arow_leb_trans. Qed.
+
+Lemma sorted_perm_unique : forall l1 l2,
+  Sorted row_le l1 -> Sorted row_le l2 -> Permutation l1 l2 -> l1 = l2.
+Proof.
+  induction l1 as [|x l1 IH]; intros l2 S1 S2 P.
+  - apply Permutation_nil in P. now subst.
+  - destruct l2 as [|y l2]; [apply Permutation_sym, Permutation_nil in P; discriminate|].
+    apply Sorted_StronglySorted in S1; [|exact row_le_transitive].
+    apply Sorted_StronglySorted in S2; [|exact row_le_transitive].
+    inversion S1 as [|? ? SS1 F1]; subst. inversion S2 as [|? ? SS2 F2]; subst.
+    assert (x = y).
+    { assert (Ix : In x (y :: l2)) by (eapply Permutation_in; [exact P | now left]).
+      assert (Iy : In y (x :: l1)) by (eapply Permutation_in; [apply Permutation_sym; exact P | now left]).
+      destruct Ix as [->|Ix]; [reflexivity|]. destruct Iy as [<-|Iy]; [reflexivity|].
+      apply arow_leb_antisym.
+      - rewrite Forall_forall in F1. now apply F1.
+      - rewrite Forall_forall in F2. now apply F2. }
+    subst y. f_equal. apply IH.
+    + now apply StronglySorted_Sorted.
+    + now apply StronglySorted_Sorted.
+    + eapply Permutation_cons_inv; exact P.
+Qed.
+
+Lemma insert_row_perm : forall x l, Permutation (insert_row x l) (x :: l).
+Proof.
+  intros x. induction l as [|y l IH]; cbn; [apply Permutation_refl|].
+  destruct (arow_leb x y); [apply Permutation_refl|].
+  eapply Permutation_trans; [constructor; exact IH | apply perm_swap].
+Qed.
+
+Lemma insert_row_hdrel : forall z x l, row_le z x -> HdRel row_le z l -> HdRel row_le z (insert_row x l).
+Proof.
+  intros z x [|y l] Hx Hl; cbn; [now constructor|].
+  destruct (arow_leb x y); constructor; [assumption | now inversion Hl].
+Qed.
+
+Lemma insert_row_sorted : forall x l, Sorted row_le l -> Sorted row_le (insert_row x l).
+Proof.
+  intros x. induction l as [|y l IH]; intros S; cbn; [repeat constructor|].
+  destruct (arow_leb x y) eqn:E.
+  - constructor; [exact S | constructor; exact E].
+  - inversion S; subst. constructor; [now apply IH|].
+    apply insert_row_hdrel; [now apply arow_leb_total | assumption].
+Qed.
+
+Lemma sort_rows_perm : forall l, Permutation (sort_rows l) l.
+Proof.
+  induction l as [|x l IH]; cbn; [constructor|].
+  eapply Permutation_trans; [apply insert_row_perm | now constructor].
+Qed.
+
+Lemma sort_rows_sorted : forall l, Sorted row_le (sort_rows l).
+Proof. induction l as [|x l IH]; cbn; [constructor | now apply insert_row_sorted]. Qed.
+
+(* whatever the partition of the series over readers and whatever the order of the readers: merging the readers'
+   sorted streams gives exactly L1's sorted rows *)
+Theorem merge_k_eq_sort_rows : forall ls, Forall (Sorted row_le) ls -> merge_k ls = sort_rows (concat ls).
+Proof.
+  intros ls H. apply sorted_perm_unique.
+  - now apply merge_k_sorted.
+  - apply sort_rows_sorted.
+  - eapply Permutation_trans; [apply merge_k_perm | apply Permutation_sym, sort_rows_perm].
+Qed.
+
+Theorem plain_split_invariant_lemma : forall parts all,
+  Permutation (concat parts) all ->
+  merge_k (map sort_rows parts) = sort_rows all.
+Proof.
+  intros parts all P. rewrite merge_k_eq_sort_rows.
+  - apply sorted_perm_unique; try apply sort_rows_sorted.
+    eapply Permutation_trans; [apply sort_rows_perm|].
+    eapply Permutation_trans; [| apply Permutation_sym, sort_rows_perm].
+    eapply Permutation_trans; [| exact P].
+    clear P. induction parts as [|p parts IH]; cbn; [constructor|].
+    apply Permutation_app; [apply sort_rows_perm | exact IH].
+  - apply Forall_forall. intros l Hin. apply in_map_iff in Hin. destruct Hin as [p [<- _]]. apply sort_rows_sorted.
+Qed.
+
+Lemma flat_map_concat_parts : forall {X Y} (f : X -> list Y) (parts : list (list X)),
+  concat (map (flat_map f) parts) = flat_map f (concat parts).
+Proof.
+  intros X Y f. induction parts as [|p parts IH]; cbn; [reflexivity|].
+  now rewrite IH, flat_map_app.
+Qed.
+
+(* L2 = L1 for plain selections: each reader sorts the rows of its share of the series, the readers' streams are
+   merged; the result is L1's plain_group of all member series, for every partition and every order *)
+Theorem plain_pipeline_refines_eval_lemma : forall q cols (parts : list (list series)) ms,
+  Permutation (concat parts) ms ->
+  merge_k (map (plain_group q cols) parts) = plain_group q cols ms.
+Proof.
+  intros q cols parts ms P. unfold plain_group.
+  rewrite <- (map_map (flat_map (plain_rows_of_series q cols)) sort_rows).
+  apply plain_split_invariant_lemma.
+  rewrite flat_map_concat_parts. now apply Permutation_flat_map.
+Qed.
